@@ -26,6 +26,10 @@ Lemma nr_do_mcudone ex h0 h tok ok : NR ex h0 h -> nres ex h0 (do_mcudone h tok 
 Proof. intros B. unfold do_mcudone. ngo. Qed.
 #[export] Hint Resolve nr_do_mcudone : nrdb.
 
+Lemma nr_do_sendoffer ex h0 h c sid s i stream : NR ex h0 h -> nres ex h0 (do_sendoffer h c sid s i stream).
+Proof. intros B. unfold do_sendoffer. ngo. Qed.
+#[export] Hint Resolve nr_do_sendoffer : nrdb.
+
 Lemma nr_do_media ex h0 h c sid s to mk stream media : get_sess h sid = Some s -> NR ex h0 h -> nres ex h0 (do_media h c sid s to mk stream media).
 Proof. intros Hs B. unfold do_media. ngo. Qed.
 #[export] Hint Resolve nr_do_media : nrdb.
